@@ -449,6 +449,53 @@ def loops_to_comprehensions(fn):
     return _set_parents(fn)
 
 
+def formats_to_fstrings(fn):
+    """in place: '<const>'.format(positional / keyword simple fields) -> the equivalent f-string, so that the two
+    spellings compare equal"""
+    import string
+
+    class T(ast.NodeTransformer):
+        def visit_Call(self, node):
+            self.generic_visit(node)
+            f = node.func
+            if isinstance(f, ast.Attribute) and f.attr == "format" and isinstance(f.value, ast.Constant) and isinstance(f.value.value, str):
+                if any(isinstance(a, ast.Starred) for a in node.args) or any(k.arg is None for k in node.keywords):
+                    return node
+                try:
+                    parts = list(string.Formatter().parse(f.value.value))
+                except ValueError:
+                    return node
+                values = []
+                auto = 0
+                kw = {k.arg: k.value for k in node.keywords}
+                for lit, field, spec, conv in parts:
+                    if lit:
+                        values.append(ast.Constant(value=lit))
+                    if field is None:
+                        continue
+                    if field == "":
+                        if auto >= len(node.args):
+                            return node
+                        v = node.args[auto]
+                        auto += 1
+                    elif field.isdigit():
+                        if int(field) >= len(node.args):
+                            return node
+                        v = node.args[int(field)]
+                    elif field in kw:
+                        v = kw[field]
+                    else:
+                        return node
+                    fs = ast.JoinedStr(values=[ast.Constant(value=spec)]) if spec else None
+                    values.append(ast.FormattedValue(value=v, conversion=ord(conv) if conv else -1, format_spec=fs))
+                return ast.copy_location(ast.JoinedStr(values=values), node)
+            return node
+
+    T().visit(fn)
+    ast.fix_missing_locations(fn)
+    return _set_parents(fn)
+
+
 def canonical(fn, resolver=None, keep=None, depth=2):
     new = inline(fn, resolver, depth, keep) if resolver is not None else copy_fn(fn)
     return loops_to_comprehensions(new)
